@@ -18,10 +18,15 @@ Verdict(e) ==
         shape == <<(IF st.lim < 0 THEN "nolimit" ELSE IF st.lim = 0 THEN "limit0" ELSE "limit"),
                    (IF st.off < 0 THEN "nooffset" ELSE IF st.off = 0 THEN "offset0" ELSE "offset"),
                    (IF st.top >= 0 THEN "top" ELSE "notop")>>
+        \* 'skip m rows, then return at most n' on the ten-row table 0..9 (SQLite executes the ordered top-level statement)
+        m == IF st.off < 0 THEN 0 ELSE st.off
+        cnt == IF st.lim < 0 THEN 10 - m ELSE IF st.lim < 10 - m THEN st.lim ELSE 10 - m
+        wantRows == [k \in 1..(IF cnt < 0 THEN 0 ELSE cnt) |-> m + k - 1]
     IN [tid |-> e.tid, shape |-> shape,
         bad |-> (IF e.tail # want THEN {"tail"} ELSE {})
                 \cup (IF e.ph /\ e.params # wantp THEN {"params"} ELSE {})
                 \cup (IF ~PagGrammatical(st, e.d) THEN {"offset-without-limit"} ELSE {})
+                \cup (IF e.engine /\ e.rows # wantRows THEN {"engine-rows"} ELSE {})
                 \cup (IF st.top >= 0 /\ (st.lim >= 0 \/ st.off >= 0) THEN {"top-with-offset-fetch"} ELSE {}),
         want |-> want]
 Next == /\ i <= Len(Events)
